@@ -187,8 +187,50 @@ def expected(spec):
 def check(spec, ctx):
     import finam as fm
 
+    if spec.get("later"):
+        return check_repair(spec, ctx)
     exp = expected(spec)
     comp, comps, nodes = build(spec)
+    _judge(spec, ctx, exp, comp, comps, nodes)
+
+
+def check_repair(spec, ctx):
+    """history: a first connect() is rejected by validation (nothing exchanged), the coupling script repairs the
+    topology by adding the missing links (possibly new adapters between existing ones) and connects again"""
+    import finam as fm
+
+    first = dict(spec, edges=[e for e in spec["edges"] if e not in spec["later"]])
+    exp1 = expected(first)
+    comp, comps, nodes = build(first)
+    try:
+        comp.connect()
+        got1 = "ok"
+    except fm.FinamConnectError:
+        got1 = "reject"
+    except Exception as e:  # pylint: disable=broad-except
+        got1 = "other:" + type(e).__name__
+    listed = [comps[n] for n in spec["listed"]]
+    ctx.event("repair-history")
+    if not exp1 or got1 != "reject" or not all(c.status == fm.ComponentStatus.INITIALIZED for c in listed):
+        if bool(exp1) != (got1 == "reject"):
+            ctx.violation("repair-first-verdict", f"first connect -> {got1}, model rejects for {sorted(exp1)} | topology {first}")
+        return  # first attempt got through: no retry possible
+
+    def ep(x):
+        if x[0] == "a":
+            return nodes[x[1]]
+        if x[0] == "o":
+            return comps[x[1]].outputs[x[2]]
+        return comps[x[1]].inputs[x[2]]
+
+    for a, b in spec["later"]:
+        ep(a) >> ep(b)
+    ctx.event("second-connect")
+    _judge(spec, ctx, expected(spec), comp, comps, nodes, tag="after-repair:")
+
+
+def _judge(spec, ctx, exp, comp, comps, nodes, tag=""):
+    import finam as fm
     try:
         comp.connect()
         got = "ok"
@@ -211,12 +253,12 @@ def check(spec, ctx):
     info = f" | topology {spec}"
     if exp:
         if got != "reject":
-            ctx.violation("unworkable-accepted:" + "+".join(sorted(exp)), f"model rejects for {sorted(exp)} but connect() -> {got}" + info)
+            ctx.violation(tag + "unworkable-accepted:" + "+".join(sorted(exp)), f"model rejects for {sorted(exp)} but connect() -> {got}" + info)
         elif not untouched:
-            ctx.violation("rejected-after-exchange", f"FinamConnectError raised after components were pinged/connected: {[c.status.name for c in listed]}" + info)
+            ctx.violation(tag + "rejected-after-exchange", f"FinamConnectError raised after components were pinged/connected: {[c.status.name for c in listed]}" + info)
         return
     if got == "reject":
-        ctx.violation("workable-rejected", f"valid topology rejected: {msg[:200]}" + info)
+        ctx.violation(tag + "workable-rejected", f"valid topology rejected: {msg[:200]}" + info)
         return
     if untouched and listed:
         ctx.violation("validation-passed-nothing-happened", f"connect -> {got} but every component is still INITIALIZED" + info)
@@ -249,13 +291,13 @@ def check(spec, ctx):
                     changed = True
         want = sorted((tuple(a), tuple(b)) for a, b in spec["edges"] if tuple(a) in reach)
         if got_links != want:
-            ctx.violation("metadata-links", f"reported links {got_links} != created links {want}")
+            ctx.violation(tag + "metadata-links", f"reported links {got_links} != created links {want}")
         ctx.event("links-compared")
 
 
 # ------------------------------------------------------------------ generators
 @st.composite
-def topo(draw, max_comps=3, chains=(0, 0, 1, 1, 2, 3, 4)):
+def topo(draw, max_comps=3, chains=(0, 0, 1, 1, 2, 3, 4), repair=True):
     nc = draw(st.integers(1, max_comps))
     comps = []
     for i in range(nc):
@@ -280,7 +322,13 @@ def topo(draw, max_comps=3, chains=(0, 0, 1, 1, 2, 3, 4)):
             sources.append(node)
         edges.append([node, list(inp)])
     listed = [c["name"] for c in comps if draw(st.integers(0, 9)) > 0] or [comps[0]["name"]]
-    return {"comps": comps, "adapters": adapters, "edges": edges, "listed": list(draw(st.permutations(listed)))}
+    spec = {"comps": comps, "adapters": adapters, "edges": edges, "listed": list(draw(st.permutations(listed)))}
+    if repair and edges and draw(st.integers(0, 3)) == 0:
+        # some links are only created after a first, rejected connect attempt
+        k = draw(st.integers(1, min(3, len(edges))))
+        idx = draw(st.lists(st.integers(0, len(edges) - 1), min_size=k, max_size=k, unique=True))
+        spec["later"] = [edges[i] for i in sorted(idx)]
+    return spec
 
 
 def enum_small(tier):
